@@ -9,6 +9,7 @@ import (
 
 	"github.com/protolambda/ztyp/codec"
 	hnet "github.com/zen-eth/shisui/history"
+	pingext "github.com/zen-eth/shisui/portalwire/ping_ext"
 	"github.com/zen-eth/shisui/state"
 	tbeacon "github.com/zen-eth/shisui/types/beacon"
 	thist "github.com/zen-eth/shisui/types/history"
@@ -321,5 +322,45 @@ func c14initMore() {
 			var v hnet.EpochAccumulator
 			err := v.UnmarshalSSZ(b)
 			return []c14field{{l: v.HeaderRecords}}, err
+		}})
+	// ---- prover-side containers of package history (fastssz)
+	c14reg(&c14type{name: "HeaderWithProofH", tableAt: -1, fixOffs: []int{0, 4},
+		fields: []c14fs{{name: "Header", kind: 'B', max: 8192}, {name: "Proof", kind: 'B', max: 1024}},
+		enc: func(f []c14field) ([]byte, error) {
+			return (&hnet.BlockHeaderWithProof{Header: f[0].b, Proof: f[1].b}).MarshalSSZ()
+		},
+		dec: func(b []byte) ([]c14field, error) {
+			var v hnet.BlockHeaderWithProof
+			err := v.UnmarshalSSZ(b)
+			return []c14field{{b: v.Header}, {b: v.Proof}}, err
+		}})
+	c14reg(&c14type{name: "SSZProof", tableAt: -1, fixOffs: []int{32},
+		fields: []c14fs{{name: "Leaf", kind: 'B', exact: 32}, {name: "Witnesses", kind: 'L', max: 65536, itemExact: 32, hugeCount: true}},
+		enc: func(f []c14field) ([]byte, error) {
+			return (&hnet.SSZProof{Leaf: f[0].b, Witnesses: f[1].l}).MarshalSSZ()
+		},
+		dec: func(b []byte) ([]c14field, error) {
+			var v hnet.SSZProof
+			err := v.UnmarshalSSZ(b)
+			return []c14field{{b: v.Leaf}, {l: v.Witnesses}}, err
+		}})
+	c14reg(&c14type{name: "MasterAcc", tableAt: -1, fixOffs: []int{0},
+		fields: []c14fs{{name: "HistoricalEpochs", kind: 'L', max: 1897, itemExact: 32}},
+		enc: func(f []c14field) ([]byte, error) {
+			return (&hnet.MasterAccumulator{HistoricalEpochs: f[0].l}).MarshalSSZ()
+		},
+		dec: func(b []byte) ([]c14field, error) {
+			var v hnet.MasterAccumulator
+			err := v.UnmarshalSSZ(b)
+			return []c14field{{l: v.HistoricalEpochs}}, err
+		}})
+	c14reg(&c14type{name: "CustomPayload", tableAt: -1, fields: []c14fs{{name: "Payload", kind: 'B', max: 1100}},
+		enc: func(f []c14field) ([]byte, error) {
+			return c14zser(pingext.CustomPayloadExtensionsFormatPayload(f[0].b).Serialize)
+		},
+		dec: func(b []byte) ([]c14field, error) {
+			var v pingext.CustomPayloadExtensionsFormatPayload
+			err := c14zdes(b, v.Deserialize)
+			return []c14field{{b: []byte(v)}}, err
 		}})
 }
